@@ -5,6 +5,7 @@ import Nstd.Life.LemmasAssign
 import Nstd.Life.LemmasStableSharp
 import Nstd.Life.LemmasClient
 import Nstd.Life.LemmasClient2
+import Nstd.Life.LemmasReuse
 /-
   Property theorems for C05: elements of List, Map, MultiMap, HashMap, HashSet, PoolList and PoolMap
   never move while they live; swap hands the elements over without relocating them; the pool
@@ -272,5 +273,75 @@ theorem insert_own_value_is_self_assignment (p : Per) (ops : List Op) (c : Var) 
 /-- non-vacuity: in `stableOps` the Map holds key 3; inserting (3, value of item 0) is executable -/
 example : ((run (init per4) stableOps).nodes ⟨.M, 0⟩).items.length = 1 ∧
     (exec (run (init per4) stableOps) (.put ⟨.M, 0⟩ none (some (.ext 3)) (some (.item ⟨.M, 0⟩ 0 1)))).isSome = true := by decide +kernel
+
+-- C05: List::sort - the nodes stay, the values are exchanged ---------------------------------------------------------------
+
+/-- C05 `sort_keeps_nodes_swaps_values`.  `l.sort()` under any comparator, in every reachable state: it removes no element of any
+    container (`Op.removes` is false), every node keeps its slot and its place in every item list (`nodes` unchanged), nothing is
+    constructed or destroyed in any slot (all events are `SortEv` assignments) - so in the terms of `pointer_valid_until_removed`
+    every POINTER / iterator to an element stays valid across `sort` (the element is `Kept`) - but it is the VALUES that are sorted:
+    the value object a pointer designates is assigned to by the swaps (that clause of `Valid`: unchanged "unless the events contain an
+    assignment to that very object"), so afterwards the pointer may see another value.  `sort` moves values between addresses, not
+    nodes; a client that keeps element addresses across `sort` keeps valid memory but not "its" value. -/
+theorem sort_keeps_nodes_swaps_values (p : Per) (ops : List Op) (v : Nat) (orc : List Bool) :
+    (step (run (init p) ops) (.lSort v orc)).nodes = (run (init p) ops).nodes ∧
+    (∀ c it, ¬ Op.removes (run (init p) ops) (.lSort v orc) c it) ∧
+    ∃ evs, (step (run (init p) ops) (.lSort v orc)).log = (run (init p) ops).log ++ evs ∧
+      (∀ e, e ∈ evs → SortEv (run (init p) ops) ⟨.L, v⟩ e) ∧
+      ∀ c it, it ∈ ((run (init p) ops).nodes c).items →
+        Valid (run (init p) ops) (step (run (init p) ops) (.lSort v orc)) evs it c False := by
+  obtain ⟨hn, _, _, evs, hl, hev⟩ := step_sort (run (init p) ops) v orc
+  refine ⟨hn, fun c it => sort_removes_nothing _ v orc c it, evs, hl, hev, ?_⟩
+  obtain ⟨evs', hl', hv⟩ := step_valid (reach_ok p ops).1 (.lSort v orc)
+  have hee : evs' = evs := List.append_cancel_left (hl'.symm.trans hl)
+  subst hee
+  intro c it hi
+  rcases hv c it hi with ⟨_, h2⟩ | ⟨h1, _⟩
+  · exact Or.inl ⟨fun h => h, h2⟩
+  · exact absurd h1 (sort_removes_nothing _ v orc c it)
+
+-- C05: which address an insertion takes (LIFO free list) - "an address is reused only after its element was removed" ------------
+
+/-- C05 `insert_takes_free_head` (List, HashMap, HashSet, PoolList, PoolMap, and the slot side of Map / MultiMap; the tree side is
+    `Mech.map_insert_takes_free_head`).  In every reachable state an insertion step that links a new item takes
+    * the HEAD of the container's free list - the slot released most recently - leaving the rest of the free list and the blocks as
+      they are; or, the free list being empty,
+    * the first slot in hand-out order of a block `b` never allocated before (`newSlots`: slot 0 for HashMap / HashSet, the last slot
+      for the others), the other slots of the block becoming the free list;
+    and in both cases that slot holds no element of ANY container at that moment (`slot_reused_only_after_removal`). -/
+theorem insert_takes_free_head (p : Per) (ops : List Op) (c : Var) (pos : Option Nat) (k v : Option SrcRef) (st' : State)
+    (he : exec (run (init p) ops) (.put c pos k v) = some st')
+    (hg : (st'.nodes c).items.length = ((run (init p) ops).nodes c).items.length + 1) :
+    (∀ it rest, ((run (init p) ops).nodes c).free = it :: rest →
+      (∃ q, (st'.nodes c).items = insertAt ((run (init p) ops).nodes c).items q it) ∧ (st'.nodes c).free = rest ∧
+        (st'.nodes c).blocks = ((run (init p) ops).nodes c).blocks) ∧
+    (((run (init p) ops).nodes c).free = [] →
+      ∃ b it rest q, (run (init p) ops).next ≤ b ∧ newSlots ((run (init p) ops).per.f c.k) c.k b = it :: rest ∧
+        (st'.nodes c).items = insertAt ((run (init p) ops).nodes c).items q it ∧ (st'.nodes c).free = rest ∧
+        (st'.nodes c).blocks = b :: ((run (init p) ops).nodes c).blocks) :=
+  put_takes_free_head c pos k v he hg
+
+/-- C05 `remove_then_insert_reuses`: the first insertion into a container after `remove(iterator)` constructs its item in exactly the
+    slot just released, and free list and blocks are back to what they were before the removal (any state). -/
+theorem remove_then_insert_reuses (st s1 s2 : State) (c : Var) (j : Nat) (h1 : exec st (.remove c j) = some s1)
+    (pos : Option Nat) (k v : Option SrcRef) (h2 : exec s1 (.put c pos k v) = some s2)
+    (hg : (s2.nodes c).items.length = (s1.nodes c).items.length + 1) :
+    ∃ it q, (st.nodes c).items[j]? = some it ∧ (s2.nodes c).items = insertAt ((st.nodes c).items.eraseIdx j) q it ∧
+      (s2.nodes c).free = (st.nodes c).free ∧ (s2.nodes c).blocks = (st.nodes c).blocks :=
+  remove_then_put_reuses c j h1 pos k v h2 hg
+
+/-- C05 `slot_reused_only_after_removal`: the slot an insertion constructs its new item in is, in the state before, the slot of NO
+    element of any container: an address designates a new element only after the element that lived there was removed (or it was
+    never used). -/
+theorem slot_reused_only_after_removal (p : Per) (ops : List Op) (c : Var) (pos : Option Nat) (k v : Option SrcRef) (st' : State)
+    (he : exec (run (init p) ops) (.put c pos k v) = some st') (it : Item) (q : Nat)
+    (hq : (st'.nodes c).items = insertAt ((run (init p) ops).nodes c).items q it) (hnew : it ∉ ((run (init p) ops).nodes c).items) :
+    ∀ c', it ∉ ((run (init p) ops).nodes c').items :=
+  put_new_item_unused (reach_ok p ops).1 c pos k v he it q hq hnew
+
+/-- non-vacuity: remove the first PoolList element of `stableOps`, append again - executable, the container grows -/
+example : (exec (run (init per4) stableOps) (.remove ⟨.P, 0⟩ 0)).isSome = true ∧
+    ((step (step (run (init per4) stableOps) (.pRemove 0 0)) (.pAppend 0 5)).nodes ⟨.P, 0⟩).items =
+      ((run (init per4) stableOps).nodes ⟨.P, 0⟩).items := by decide +kernel
 
 end Nstd.Life
